@@ -102,7 +102,7 @@ func init() {
 		Explain: "Scope: the call-graph closure (in-module, non-test) of the entry points that decode untrusted bytes (asn1.Unmarshal*, cryptobyte.String readers, x509 and ct/x509 Parse*, ct and x509/ct readers, ocsp/google/mozilla/microsoft Parse, TLS handshake unmarshal methods, rsa Verify*/Encrypt*). " +
 			"R-LOOP: in every loop of the scope the variables (or cursor object) the exit tests read change on every back edge: no cycle leaves all of them untouched (hang). R-ERR: a pointer result of a call that also returns an error is dereferenced only past err == nil or an explicit nil test. " +
 			"R-NILPTR: a pointer variable whose address was handed to json.Unmarshal is dereferenced only behind a nil test (JSON null). R-GUARD: a byte string becomes an ed25519.PublicKey on a success path only past len == 32 (ed25519.Verify panics otherwise; reached from the self-signature test in parseCertificate). " +
-			"R-ALLOC: in the io.Reader based parsers (ct, x509/ct, microsoft) a buffer whose length was read from the input is allocated only past an upper bound on that length. R-PANIC: no function of the scope ends in panic on all paths. " +
+			"R-ALLOC: in the io.Reader based parsers (ct, x509/ct, microsoft, google) a buffer whose length or capacity was read from the input is allocated only past an upper bound on that length. R-FRESH: inside a loop, a decoder never fills an object with optional members that was allocated outside the loop and not reset (stale fields from the previous element), and no buffer allocated outside the loop is handed out per element. R-PANIC: no function of the scope ends in panic on all paths. " +
 			"R-BOUNDS: for the functions listed in c01_covered.go (those the bounds prover discharged completely when the list was frozen) every index and slice bound is covered by a length test on every path.",
 		NotCov: "index and slice bounds in scope functions outside the covered list (the prover is incomplete for loop-carried relational invariants), nil dereferences outside the shapes above, recursion depth, CPU time of math/big, the standard library's own behaviour.",
 		Floor:  250,
@@ -301,7 +301,7 @@ func runC01(c *Ctx) {
 	nal := 0
 	for _, fn := range scope {
 		pp := fn.Pkg.Pkg.Path()
-		if !(strings.HasSuffix(pp, "/ct") || strings.HasSuffix(pp, "/x509/ct") || strings.HasSuffix(pp, "/revocation/microsoft")) {
+		if !(strings.HasSuffix(pp, "/ct") || strings.HasSuffix(pp, "/x509/ct") || strings.HasSuffix(pp, "/revocation/microsoft") || strings.HasSuffix(pp, "/revocation/google")) {
 			continue
 		}
 		for _, b := range fn.Blocks {
@@ -311,6 +311,9 @@ func runC01(c *Ctx) {
 					continue
 				}
 				wire := wireInts(mk.Len)
+				for k, v := range wireInts(mk.Cap) {
+					wire[k] = v
+				}
 				if len(wire) == 0 {
 					continue
 				}
@@ -330,8 +333,12 @@ func runC01(c *Ctx) {
 						default:
 							return false
 						}
+						wireExprs := map[string]bool{}
+						for v := range wire {
+							wireExprs[Expr(v)] = true
+						}
 						isWire := func(v ssa.Value) bool {
-							if wire[v] {
+							if wire[v] || wireExprs[Expr(v)] {
 								return true
 							}
 							if u, ok := v.(*ssa.UnOp); ok && u.Op == token.MUL {
@@ -359,6 +366,9 @@ func runC01(c *Ctx) {
 		}
 	}
 	c.Check(nal >= 1, "R-ALLOC", "reader-based parsers", "wire-sized allocations enumerated", "-", fmt.Sprint(nal))
+
+	// ---------------- R-FRESH: decode targets and buffers are per iteration
+	c.FreshObligations(scope, "parsers")
 
 	// ---------------- R-PANIC
 	for _, fn := range scope {
@@ -400,6 +410,26 @@ func wireInts(v ssa.Value) map[ssa.Value]bool {
 			}
 		}
 		if u, ok := x.(*ssa.UnOp); ok && u.Op == token.MUL {
+			// a field of a local struct that binary.Read filled (through any address of that field)
+			if fa, ok := u.X.(*ssa.FieldAddr); ok {
+				if al, ok := fa.X.(*ssa.Alloc); ok {
+					for _, r := range *al.Referrers() {
+						fb, ok := r.(*ssa.FieldAddr)
+						if !ok || fb.Field != fa.Field {
+							continue
+						}
+						for _, r1 := range *fb.Referrers() {
+							if mi, ok := r1.(*ssa.MakeInterface); ok {
+								for _, r2 := range *mi.Referrers() {
+									if cc := callCommon(r2); cc != nil && calleeName(cc) == "encoding/binary.Read" {
+										out[x] = true
+									}
+								}
+							}
+						}
+					}
+				}
+			}
 			if al, ok := u.X.(*ssa.Alloc); ok {
 				for _, r := range *al.Referrers() {
 					if mi, ok := r.(*ssa.MakeInterface); ok {
